@@ -69,6 +69,22 @@ def c08_helper(helper, extra, wrapped, s, x):
     return out
 
 
+def c08_helper_regex(wrapped, s):
+    from flow.record import selector
+
+    rec = _rec(7, s or "")
+    r = selector.WrappedRecord(rec) if wrapped else rec
+    out = {}
+    try:
+        a = selector.field_regex(r, ["missing", "missing2"], "a.c")
+        b = selector.field_regex(r, ["missing", "s", "missing2"], "^a[bc]+$")
+        c = selector.field_regex(r, ["s"], "^a[bc]+$")
+        out.update(only_missing=a, with_missing=b, without=c, violates=bool(a) or bool(b) != bool(c))
+    except Exception as e:
+        out.update(result=f"raised {type(e).__name__}: {e}", violates=True)
+    return out
+
+
 def c08_mixed_stream(seed, records):
     """Filtering a stream that mixes record types: output == records that have the field and satisfy the condition."""
     from flow.record import RecordDescriptor, RecordReader, RecordStreamWriter
@@ -99,4 +115,4 @@ def c08_mixed_stream(seed, records):
     return {"violates": False, "cases": cases}
 
 
-CALLS = {"c08_eval": c08_eval, "c08_select": c08_select, "c08_ctx": c08_ctx, "c08_helper": c08_helper, "c08_mixed_stream": c08_mixed_stream}
+CALLS = {"c08_eval": c08_eval, "c08_select": c08_select, "c08_ctx": c08_ctx, "c08_helper": c08_helper, "c08_helper_regex": c08_helper_regex, "c08_mixed_stream": c08_mixed_stream}
